@@ -46,6 +46,7 @@ type Block struct {
 type Tree struct {
 	Blocks []Block  `json:"blocks"`
 	Keys   []string `json:"keys"`
+	Quiet  bool     `json:"quiet,omitempty"`
 	byHash map[string]*Block
 }
 
@@ -142,6 +143,26 @@ func Gen(rt *rapid.T, p Params) *Tree {
 	}
 	n := gen.Uniform(rt, 2, p.MaxBlocks, "nblocks")
 	valSeq := 0
+	// quiet long chains: most blocks write nothing, so a key's last write lies many links behind the tip
+	quiet := gen.Chance(rt, 20, "quiet")
+	if quiet {
+		n = gen.Uniform(rt, 22, 60, "nblocksquiet") // far below the 2000 links a lookup is willing to walk
+	}
+	t.Quiet = quiet
+	// values come back: a write often stores a value the key had before (possibly the one that is visible right now)
+	past := map[string][]string{}
+	newVal := func(key string) string {
+		if h := past[key]; len(h) > 0 && gen.Chance(rt, 30, "oldval") {
+			if gen.Chance(rt, 60, "lastval") {
+				return h[len(h)-1]
+			}
+			return gen.Pick(rt, h, "anyold")
+		}
+		valSeq++
+		v := fmt.Sprintf("v%d", valSeq)
+		past[key] = append(past[key], v)
+		return v
+	}
 	for i := 0; i < n; i++ {
 		b := Block{Hash: fmt.Sprintf("B%d", i), Round: int64(i + 1), Commit: true}
 		switch {
@@ -154,17 +175,24 @@ func Gen(rt *rapid.T, p Params) *Tree {
 			b.Prev = fmt.Sprintf("gap-%d", i)
 		case p.Gaps && gen.Chance(rt, 5, "root2"):
 			b.Prev = ""
-		case p.Forks && gen.Chance(rt, 30, "fork"):
+		case p.Forks && !quiet && gen.Chance(rt, 30, "fork"):
 			b.Prev = t.Blocks[gen.Uniform(rt, 0, i-1, "parent")].Hash
+		case p.Forks && quiet && gen.Chance(rt, 10, "quietfork"):
+			// a short side branch near the tip or anywhere along the chain (the main chain stays long)
+			b.Prev = t.Blocks[gen.Uniform(rt, max(0, i-1-gen.Uniform(rt, 0, 30, "forkback")), i-1, "quietparent")].Hash
 		default:
 			b.Prev = t.Blocks[i-1].Hash
 		}
 		if gen.Chance(rt, 15, "direct") {
 			// the block writes a value itself, before its transactions run
-			valSeq++
-			b.Direct = append(b.Direct, Write{Key: gen.Pick(rt, t.Keys, "dk"), Val: fmt.Sprintf("v%d", valSeq)})
+			dk := gen.Pick(rt, t.Keys, "dk")
+			b.Direct = append(b.Direct, Write{Key: dk, Val: newVal(dk)})
 		}
 		ntx := gen.Uniform(rt, 0, 3, "ntx")
+		if quiet && i >= 3 && !gen.Chance(rt, 4, "quietwrites") {
+			ntx = 0
+			b.Direct = nil
+		}
 		for j := 0; j < ntx; j++ {
 			tx := Txn{Commit: true}
 			nw := gen.Uniform(rt, 1, 3, "nw")
@@ -173,8 +201,7 @@ func Gen(rt *rapid.T, p Params) *Tree {
 				if gen.Chance(rt, 22, "rm") {
 					w.Remove = true
 				} else {
-					valSeq++
-					w.Val = fmt.Sprintf("v%d", valSeq)
+					w.Val = newVal(w.Key)
 				}
 				tx.Writes = append(tx.Writes, w)
 			}
@@ -185,7 +212,7 @@ func Gen(rt *rapid.T, p Params) *Tree {
 			}
 			b.Txns = append(b.Txns, tx)
 		}
-		if p.Abandoned && !p.OnlyChains && gen.Chance(rt, 8, "abandonblock") {
+		if p.Abandoned && !p.OnlyChains && !quiet && gen.Chance(rt, 8, "abandonblock") {
 			b.Commit = false
 		}
 		if p.Twice && b.Commit && gen.Chance(rt, 12, "twice") {
